@@ -135,6 +135,16 @@ def to_settings(s):
         Node(min_conn=c['min'], repeated_allowed=c['rep'])  # noqa
     src = [mkn(c) for c in s['src']]
     tgt = [mkn(c) for c in s['tgt']]
+    excluded = [tuple(e) for e in s['excluded']] or None
+    if s.get('nodes') == 'shared':
+        # the way a model with symmetric connectors may be written: ONE Node object per distinct connector description,
+        # used on both sides, and the excluded pairs given as (source object, target object)
+        objs = {}
+        key = lambda c: repr(sorted(c.items()))  # noqa
+        src = [objs.setdefault(key(c), mkn(c)) for c in s['src']]
+        tgt = [objs.setdefault(key(c), mkn(c)) for c in s['tgt']]
+        if len(set(map(id, src))) == len(src) and len(set(map(id, tgt))) == len(tgt) and excluded:
+            excluded = [(src[i], tgt[j]) for i, j in excluded]
     exist = []
     if s.get('construct') == 'alias':
         # the way a user of the API may write it: absent connectors through the exists masks, and ONE dict object per
@@ -160,7 +170,7 @@ def to_settings(s):
             exist.append(NodeExistence(src_n_conn_override={k: _ordered(v, p.get('order')) for k, v in p['src_override'].items()} or None,
                                        tgt_n_conn_override={k: _ordered(v, p.get('order')) for k, v in p['tgt_override'].items()} or None,
                                        max_src_conn_override=p.get('max_src'), max_tgt_conn_override=p.get('max_tgt')))
-    settings = MatrixGenSettings(src=src, tgt=tgt, excluded=[tuple(e) for e in s['excluded']] or None,
+    settings = MatrixGenSettings(src=src, tgt=tgt, excluded=excluded,
                                  existence=NodeExistencePatterns(patterns=exist), max_conn_parallel=s.get('mcp'))
     return settings, exist
 
@@ -189,6 +199,7 @@ def named_settings():
         mk([c(min_=0), c(min_=0)], [c(min_=0), c(min_=0)], excluded=[(0, 0)], name='any-any excluded'),
         mk([c(min_=0), c(min_=0)], [c(min_=0), c(min_=0)], excluded=[(0, 0), (1, 1)], name='any-any diag excluded'),
         mk([c([1, 2]), c([0, 1])], [c(min_=1), c([0, 1, 2])], mcp=1, name='mcp=1'),
+        mk([c([0, 1, 2]), c(min_=0)], [c(min_=0), c([0, 2])], mcp=0, name='mcp=0 (documented to mean 1)'),
         mk([c([2, 3]), c([0, 1])], [c(min_=1), c([0, 3])], mcp=3, name='mcp=3'),
     ]
     return out
@@ -242,6 +253,13 @@ def pool(tier, seed, with_named=True, with_max=False):
               pattern(2, 3, tgt_override={2: [0, 1]}, src_absent=[0]), pattern(2, 3, tgt_absent=[1])])):
         a = mk(sr, tg, patterns=pats, name=nm)
         a['construct'] = 'alias'
+        out.append(a)
+    for nm, sr, tg, ex_ in (
+            ('shared node objects 2x2', [c([0, 1, 2]), c(min_=0)], [c(min_=0), c([0, 1, 2])], [(0, 0)]),
+            ('shared node objects 2x2 b', [c([1, 2], rep=False), c(min_=0)], [c(min_=0), c([1, 2], rep=False)], [(0, 1)]),
+            ('shared node objects 2x3', [c([0, 1]), c(min_=1)], [c(min_=1), c([0, 1]), c([0, 2])], [(1, 1), (0, 2)])):
+        a = mk(sr, tg, excluded=ex_, name=nm)
+        a['nodes'] = 'shared'
         out.append(a)
     if tier == 'thorough':
         # bounded-exhaustive part: every assignment of the 10-type sub-alphabet to 2x2 connectors would be 10^4
